@@ -88,10 +88,14 @@ Sorted(t, ks, todo) ==
   IF todo = {} THEN <<>>
   ELSE LET i == CHOOSE i \in todo : \A j \in todo : KeyPos(t, ks[i]) <= KeyPos(t, ks[j])
        IN <<i>> \o Sorted(t, ks, todo \ {i})
+ArrLen(t) == CASE t = "arrb1" -> 1 [] t = "arrb2" -> 2 [] OTHER -> 32
 RECURSIVE Vals(_, _)
 \* values of type ty; wide = the full scalar universe (top level) or the reduced one (inside composites)
 Vals(ty, wide) ==
-  CASE ty.t \in ScalarTypes -> IF wide THEN ScalarVals(ty.t) ELSE ElemVals(ty.t)
+  CASE ty.t \in {"arrb1", "arrb2", "arrb32"} ->
+         (IF ty.t = "arrb1" THEN {BlobV(1, "lo"), BlobV(1, "hi")} ELSE {BlobV(ArrLen(ty.t), "x")})
+    [] ty.t = "arr2" -> {ListV(<<x, y>>) : x, y \in Vals(ty.e[1], FALSE)}
+    [] ty.t \in ScalarTypes -> IF wide THEN ScalarVals(ty.t) ELSE ElemVals(ty.t)
     [] ty.t = "ptr" -> {NilV} \cup {PtrV(x) : x \in Vals(ty.e[1], FALSE)}
     [] ty.t = "slice" -> {NilV, ListV(<<>>)} \cup {ListV(<<x>>) : x \in Vals(ty.e[1], FALSE)}
                           \cup {ListV(<<x, y>>) : x, y \in Vals(ty.e[1], FALSE)}
@@ -107,6 +111,8 @@ Level1 == {Scalar(t) : t \in ScalarTypes}
           \cup {Ty("slice", <<Scalar(t)>>) : t \in ElemTypes \ {"bool", "u8"}}     \* ([]uint8 is "bytes")
           \cup {Ty("struct", <<Scalar(a), Scalar(b)>>) : a, b \in ElemTypes \ {"bool"}}
           \cup {Ty(m, <<Scalar(t)>>) : m \in {"mapS", "mapI", "mapU"}, t \in {"i64", "bytes", "str"}}
+\* Go arrays: [N]byte is written as a byte string ("arrb1", "arrb2", "arrb32"), [2]T as a list ("arr2")
+ArrTypes == {Scalar("arrb1"), Scalar("arrb2"), Scalar("arrb32"), Ty("arr2", <<Scalar("i64")>>), Ty("arr2", <<Scalar("bytes")>>)}
 Inner == {Ty("ptr", <<Scalar("bytes")>>), Ty("ptr", <<Scalar("i64")>>), Ty("slice", <<Scalar("i64")>>),
           Ty("slice", <<Scalar("bytes")>>), Ty("struct", <<Scalar("str"), Scalar("big")>>),
           Ty("struct", <<Scalar("i64")>>), Ty("mapS", <<Scalar("bytes")>>)}
@@ -115,7 +121,7 @@ Level2 == {Ty("ptr", <<x>>) : x \in Inner}
           \cup {Ty("slice", <<x>>) : x \in Inner \ {Ty("mapS", <<Scalar("bytes")>>)}}
           \cup {Ty("struct", <<x, Scalar("u8")>>) : x \in Inner} \cup {Ty("struct", <<Scalar("bytes"), x>>) : x \in Inner}
           \cup {Ty("mapS", <<x>>) : x \in InnerSmall} \cup {Ty("mapI", <<x>>) : x \in InnerSmall}
-Types == IF Level >= 2 THEN Level1 \cup Level2 ELSE Level1
+Types == IF Level >= 2 THEN Level1 \cup Level2 \cup ArrTypes ELSE Level1 \cup ArrTypes
 
 ----------------------------------------------------------------------------
 (* the mapping *)
@@ -152,6 +158,54 @@ Back(ty, val) ==
               [j \in 1..Len(val.ord) |-> Back(ty.e[1], val.items[val.ord[j]])], [j \in 1..Len(val.ord) |-> j])
     [] OTHER -> val
 
+----------------------------------------------------------------------------
+(* decoding into a type other than the one written (old / new versions of a struct, arrays of another length,
+   lists that are not maps): cases [name, st, sv (what is written), tt (what is read into), res, back] *)
+ZeroOf(ty) == CASE ty.t \in {"i8", "i16", "i32", "i64", "u8", "u16", "u32", "u64"} -> IntV(<<"z">>)
+                [] ty.t = "bool" -> BoolV(0) [] ty.t = "str" -> BlobV(0, "x") [] OTHER -> NilV
+\* "cut": the first `take` bytes of an n-byte string followed by `pad` zero bytes
+CutV(n, c, take, pad) == V("cut", <<>>, n, c, <<>>, <<>>, <<take, pad>>)
+X1 == IntV(<<"p">> \o Rep("f", 7))
+S1 == BlobV(2, "x")
+St(fs) == Ty("struct", fs)
+CrossCases ==
+  { [name |-> "struct-fewer-items", st |-> St(<<Scalar("i64")>>), sv |-> StructV(<<X1>>),
+     tt |-> St(<<Scalar("i64"), t2>>), res |-> "ok", back |-> StructV(<<X1, ZeroOf(t2)>>)]
+      : t2 \in {Scalar("i64"), Scalar("str"), Scalar("bytes"), Scalar("big"), Ty("ptr", <<Scalar("i64")>>), Scalar("bool")} }
+  \cup
+  { [name |-> "struct-empty-list", st |-> Ty("slice", <<Scalar("i64")>>), sv |-> ListV(<<>>),
+     tt |-> St(<<Scalar("u8"), Scalar("str")>>), res |-> "ok", back |-> StructV(<<IntV(<<"z">>), BlobV(0, "x")>>)],
+    [name |-> "struct-more-items", st |-> St(<<Scalar("i64"), Scalar("str")>>), sv |-> StructV(<<X1, S1>>),
+     tt |-> St(<<Scalar("i64")>>), res |-> "ok", back |-> StructV(<<X1>>)],
+    [name |-> "struct-nil", st |-> Ty("ptr", <<Scalar("i64")>>), sv |-> NilV,
+     tt |-> St(<<Scalar("i64")>>), res |-> "reject", back |-> NilV],
+    [name |-> "struct-from-string", st |-> Scalar("str"), sv |-> S1,
+     tt |-> St(<<Scalar("i64")>>), res |-> "reject", back |-> NilV],
+    [name |-> "array-short-input", st |-> Scalar("bytes"), sv |-> BlobV(1, "hi"),
+     tt |-> Scalar("arrb2"), res |-> "ok", back |-> CutV(1, "hi", 1, 1)],
+    [name |-> "array-long-input", st |-> Scalar("bytes"), sv |-> BlobV(55, "x"),
+     tt |-> Scalar("arrb32"), res |-> "ok", back |-> CutV(55, "x", 32, 0)],
+    [name |-> "array-nil-input", st |-> Scalar("bytes"), sv |-> NilV,
+     tt |-> Scalar("arrb2"), res |-> "reject", back |-> NilV],
+    [name |-> "array-fewer-items", st |-> Ty("slice", <<Scalar("i64")>>), sv |-> ListV(<<X1>>),
+     tt |-> Ty("arr2", <<Scalar("i64")>>), res |-> "ok", back |-> ListV(<<X1, IntV(<<"z">>)>>)],
+    [name |-> "array-more-items", st |-> Ty("slice", <<Scalar("i64")>>), sv |-> ListV(<<X1, IntV(<<"n">>), X1>>),
+     tt |-> Ty("arr2", <<Scalar("i64")>>), res |-> "ok", back |-> ListV(<<X1, IntV(<<"n">>)>>)],
+    [name |-> "array-nil-items", st |-> Ty("slice", <<Scalar("bytes")>>), sv |-> ListV(<<NilV, NilV>>),
+     tt |-> Ty("arr2", <<Scalar("i64")>>), res |-> "ok", back |-> ListV(<<IntV(<<"z">>), IntV(<<"z">>)>>)],
+    [name |-> "map-odd-items", st |-> Ty("slice", <<Scalar("str")>>), sv |-> ListV(<<S1>>),
+     tt |-> Ty("mapS", <<Scalar("str")>>), res |-> "reject", back |-> NilV],
+    [name |-> "map-nil-key", st |-> Ty("slice", <<Scalar("bytes")>>), sv |-> ListV(<<NilV, S1>>),
+     tt |-> Ty("mapS", <<Scalar("str")>>), res |-> "reject", back |-> NilV],
+    [name |-> "map-nil-value", st |-> Ty("slice", <<Scalar("bytes")>>), sv |-> ListV(<<BlobV(0, "x"), NilV>>),
+     tt |-> Ty("mapS", <<Scalar("bytes")>>), res |-> "ok", back |-> MapV(<<"k0">>, <<NilV>>, <<1>>)],
+    [name |-> "map-from-string", st |-> Scalar("str"), sv |-> S1,
+     tt |-> Ty("mapS", <<Scalar("str")>>), res |-> "reject", back |-> NilV],
+    [name |-> "int-from-list", st |-> Ty("slice", <<Scalar("i64")>>), sv |-> ListV(<<X1>>),
+     tt |-> Scalar("i64"), res |-> "reject", back |-> NilV],
+    [name |-> "slice-from-string", st |-> Scalar("str"), sv |-> S1,
+     tt |-> Ty("slice", <<Scalar("i64")>>), res |-> "reject", back |-> NilV] }
+
 VARIABLES typ, done, hist
 vars == <<typ, done, hist>>
 NoType == Ty("", <<>>)
@@ -162,7 +216,13 @@ Marshal(ty, val) ==
   /\ ~done /\ done' = TRUE /\ typ = ty /\ UNCHANGED typ
   /\ hist' = <<[op |-> "typed", type |-> ty, val |-> val, back |-> Back(ty, val),
                 stream |-> Enc(ItemOf(ty, val))]>>
+\* Marshal a value of type st, Unmarshal the bytes into a fresh value of type tt
+Cross(c) ==
+  /\ ~done /\ typ = NoType /\ done' = TRUE /\ UNCHANGED typ
+  /\ hist' = <<[op |-> "cross", name |-> c.name, type |-> c.st, val |-> c.sv, target |-> c.tt, res |-> c.res,
+                back |-> c.back, stream |-> Enc(ItemOf(c.st, c.sv))]>>
 Next == \/ \E ty \in Types : PickType(ty)
+        \/ \E c \in CrossCases : Cross(c)
         \/ typ # NoType /\ ~done /\ \E val \in Vals(typ, TRUE) : Marshal(typ, val)
 Spec == Init /\ [][Next]_vars
 Complete == done
@@ -178,11 +238,11 @@ TypedRoundTrip == done =>
   LET it == ItemOf(hist[1].type, hist[1].val) IN Parse(Enc(it)) = [ok |-> TRUE, items |-> <<StripAll(it)>>]
 \* two values of a type are written as the same item tree only if the decoder returns the same value for both:
 \* nil / empty string / empty list / empty map / zero stay distinct wherever the type can hold both
-Injective == (done /\ Level = 1) =>
+Injective == (done /\ Level = 1 /\ hist[1].op = "typed") =>
   \A v2 \in Vals(hist[1].type, TRUE) :
      ItemOf(hist[1].type, v2) = ItemOf(hist[1].type, hist[1].val) => Back(hist[1].type, v2) = hist[1].back
 \* map entries are written in ascending key order whatever the insertion order
-MapsSorted == (done /\ hist[1].val.v = "map") =>
+MapsSorted == (done /\ hist[1].op = "typed" /\ hist[1].val.v = "map") =>
   LET o == hist[1].val.ord IN \A i \in 1..(Len(o) - 1) :
       KeyPos(hist[1].type.t, hist[1].val.keys[o[i]]) < KeyPos(hist[1].type.t, hist[1].val.keys[o[i + 1]])
 =============================================================================
